@@ -197,7 +197,8 @@ Proof.
     destruct (find_col sc (icols tb)) as [i|]; [|reflexivity].
     destruct (find_col wc (icols tb)) as [j|]; [|reflexivity].
     destruct (fits (col_ty i (icols tb)) sv); [|reflexivity].
-    cbn [option_map icols irows]. rewrite (live_update (cell_matches j wv) (set_nth i sv) _ Ht). reflexivity.
+    cbn [option_map icols irows]. apply f_equal. apply f_equal.
+    exact (live_update (cell_matches j wv) (set_nth i sv) _ Ht).
   - (* UpdateAll *)
     apply on_sim. intros tb Hg. cbn [step_class] in Hk. rewrite (tbl_of_get _ _ _ Hg) in Hk.
     assert (Ht : has_tomb (irows tb) = false).
@@ -205,13 +206,14 @@ Proof.
     unfold i_update_all, s_update_all, abs_tbl. cbn [cols rows].
     destruct (find_col sc (icols tb)) as [i|]; [|reflexivity].
     destruct (fits (col_ty i (icols tb)) sv); [|reflexivity].
-    cbn [option_map icols irows]. rewrite (live_map_all (set_nth i sv) _ Ht). reflexivity.
+    cbn [option_map icols irows]. apply f_equal. apply f_equal. exact (live_map_all (set_nth i sv) _ Ht).
   - (* AddCol *)
     apply on_sim. intros tb Hg. cbn [step_class] in Hk. rewrite (tbl_of_get _ _ _ Hg) in Hk.
     unfold i_add_col, s_add_col, abs_tbl. cbn [cols rows].
     revert Hk. destruct (has_col (cname c) (icols tb)); intro Hk; [discriminate|]. cbn [orb].
     destruct (negb (fits (cty c) (cdef c))); [reflexivity|].
-    cbn [option_map icols irows]. rewrite (live_pad (fun r => r ++ [VN])).
+    cbn [option_map icols irows]. apply f_equal. apply f_equal.
+    etransitivity; [exact (live_pad (fun r => r ++ [VN]) (irows tb))|].
     revert Hk. destruct (val_eqb (cdef c) VN) eqn:Hd; intro Hk.
     + rewrite (val_eqb_VN _ Hd). reflexivity.
     + cbn [negb andb] in Hk. revert Hk. destruct (live (irows tb)); intro Hk; [reflexivity|discriminate].
@@ -226,7 +228,7 @@ Proof.
       revert Hk. destruct (length (icols tb) <=? 1)%nat; intro Hk; [discriminate|].
       assert (Ht : has_tomb (irows tb) = false).
       { revert Hk. destruct (has_tomb (irows tb)); intro Hk; [discriminate|reflexivity]. }
-      cbn [option_map icols irows]. rewrite (live_map_all (remove_nth i) _ Ht). reflexivity. }
+      cbn [option_map icols irows]. apply f_equal. apply f_equal. exact (live_map_all (remove_nth i) _ Ht). }
     rewrite Hon. destruct (i_on t (i_drop_col c ex) s) as [s' ok]. cbn [fst snd].
     destruct ok; reflexivity.
   - (* RenameCol *)
@@ -321,7 +323,8 @@ Lemma add_column_reads_default_l : forall s t tb c,
 Proof.
   intros s t tb c Hc Hg Hf Hd. cbn [i_step]. unfold i_on. rewrite Hg. unfold i_add_col. rewrite Hf.
   cbn [negb fst]. unfold i_obs1. cbn [itabs]. rewrite (get_put_same _ _ _ _ _ Hg). cbn [imis icols irows].
-  rewrite (clean_get _ _ _ Hc Hg). rewrite (live_pad (fun r => r ++ [VN])), map_app.
+  rewrite (clean_get _ _ _ Hc Hg). rewrite map_app. cbn [map]. apply f_equal.
+  etransitivity; [exact (live_pad (fun r => r ++ [VN]) (irows tb))|].
   destruct Hd as [Hd|Hd]; rewrite Hd; reflexivity.
 Qed.
 
@@ -333,7 +336,8 @@ Lemma add_column_reads_null_l : forall s t tb c,
 Proof.
   intros s t tb c Hc Hg Hf. cbn [i_step]. unfold i_on. rewrite Hg. unfold i_add_col. rewrite Hf.
   cbn [negb fst]. unfold i_obs1. cbn [itabs]. rewrite (get_put_same _ _ _ _ _ Hg). cbn [imis icols irows].
-  rewrite (clean_get _ _ _ Hc Hg). rewrite (live_pad (fun r => r ++ [VN])), map_app. reflexivity.
+  rewrite (clean_get _ _ _ Hc Hg). rewrite map_app. cbn [map]. apply f_equal.
+  exact (live_pad (fun r => r ++ [VN]) (irows tb)).
 Qed.
 
 Lemma drop_column_preserves_others_l : forall s t tb c i,
@@ -344,7 +348,7 @@ Lemma drop_column_preserves_others_l : forall s t tb c i,
 Proof.
   intros s t tb c i Hc Hg Hf Ht. cbn [i_step]. unfold i_on. rewrite Hg. unfold i_drop_col. rewrite Hf.
   cbn [fst]. unfold i_obs1. cbn [itabs]. rewrite (get_put_same _ _ _ _ _ Hg). cbn [imis icols irows].
-  rewrite (clean_get _ _ _ Hc Hg). rewrite (live_map_all (remove_nth i) _ Ht). reflexivity.
+  rewrite (clean_get _ _ _ Hc Hg). apply f_equal. exact (live_map_all (remove_nth i) _ Ht).
 Qed.
 
 (* as the code is: EVERY stored row, deleted or not, is shown after DROP COLUMN *)
@@ -374,11 +378,14 @@ Lemma truncate_then_insert_visible_l : forall s t tb b r,
   i_obs1 (fst (i_step s (Truncate t b))) t = TRows (map cname (icols tb)) [] /\
   i_obs1 (fst (i_step (fst (i_step s (Truncate t b))) (Insert t r))) t = TRows (map cname (icols tb)) [r].
 Proof.
-  intros s t tb b r Hc Hg Hf. cbn [i_step]. unfold i_on at 2 3. rewrite Hg. cbn [fst].
+  intros s t tb b r Hc Hg Hf.
+  assert (E1 : fst (i_step s (Truncate t b)) = mkIS (put t (mkI (icols tb) [] (imis tb)) (itabs s)) (iidx s)).
+  { cbn [i_step]. unfold i_on. rewrite Hg. reflexivity. }
+  rewrite E1.
   pose proof (get_put_same _ _ t tb (mkI (icols tb) [] (imis tb)) Hg) as Hg2.
   split.
   - unfold i_obs1. cbn [itabs]. rewrite Hg2. cbn [imis icols irows]. rewrite (clean_get _ _ _ Hc Hg). reflexivity.
-  - unfold i_on. cbn [itabs]. rewrite Hg2. unfold i_insert. cbn [icols irows imis]. rewrite Hf. cbn [fst].
+  - cbn [i_step]. unfold i_on. cbn [itabs]. rewrite Hg2. unfold i_insert. cbn [icols irows imis]. rewrite Hf. cbn [fst].
     unfold i_obs1. cbn [itabs]. rewrite (get_put_same _ _ _ _ _ Hg2). cbn [imis icols irows app].
     rewrite (clean_get _ _ _ Hc Hg). reflexivity.
 Qed.
